@@ -75,11 +75,11 @@ fn alt_ops(ops: &[Op]) -> Vec<Op> {
 }
 
 impl St {
-    fn new(key_seed: u64) -> Result<St, Fail> {
+    fn new(key_seed: u64, cache: CacheMode) -> Result<St, Fail> {
         let writer = Sut::create(key_seed, World::new(), CacheMode::None)?;
         let same = Sut::create(key_seed ^ 0x5555, World::new(), CacheMode::None)?;
         let alt = Sut::create(key_seed ^ 0xAAAA, World::new(), CacheMode::None)?;
-        let replica = Replica::create(&writer.key, CacheMode::None)?;
+        let replica = Replica::create(&writer.key, cache)?;
         let mut signed = HashSet::new();
         signed.insert((0, 0));
         Ok(St {
@@ -113,7 +113,7 @@ impl St {
 }
 
 fn clone_by_replay(st: &St) -> Result<Replica, Fail> {
-    let mut a = Replica::create(&st.writer.key, CacheMode::None)?;
+    let mut a = Replica::create(&st.writer.key, st.replica.cache)?;
     for (i, p) in st.accepted.iter().enumerate() {
         match apply_proof(a.core(), p) {
             Ok(Ok(true)) => {}
@@ -124,14 +124,14 @@ fn clone_by_replay(st: &St) -> Result<Replica, Fail> {
     Ok(a)
 }
 
-fn clone_by_reopen(files: &Files, model: &Model) -> Result<Replica, Fail> {
+fn clone_by_reopen(files: &Files, model: &Model, cache: CacheMode) -> Result<Replica, Fail> {
     let world = World::from_files(files.clone());
-    match build_core(&world, None, true, CacheMode::None) {
+    match build_core(&world, None, true, cache) {
         Ok(Ok(c)) => Ok(Replica {
             world,
             core: Some(c),
             model: model.clone(),
-            cache: CacheMode::None,
+            cache,
         }),
         Ok(Err(e)) => Err(fail(format!("clone-reopen:err:{}", ops::err_sig(&e)), format!("{e}"))),
         Err(p) => Err(fail(format!("clone-reopen:panic:{}", exec::panic_sig(&p)), p)),
@@ -203,7 +203,7 @@ fn battery(ctx: &mut Ctx, st: &mut St, req: &Request, p: &Proof, r: &mut Rng, pr
     }
     let mut files_a0 = crate::world::snapshot(&a.world);
     // honest twin (reopen lane)
-    let mut t = clone_by_reopen(&files_s, &st.replica.model)?;
+    let mut t = clone_by_reopen(&files_s, &st.replica.model, st.replica.cache)?;
     match apply_proof(t.core(), p) {
         Ok(Ok(true)) => {}
         other => return Err(fail("twin-rejected-honest", format!("{:?}", outcome_name(&other)))),
@@ -321,7 +321,7 @@ fn battery(ctx: &mut Ctx, st: &mut St, req: &Request, p: &Proof, r: &mut Rng, pr
                 }
                 Ok(Ok(true)) => {
                     // accepted: tolerated only if indistinguishable from the honest proof
-                    let mut c2 = clone_by_reopen(&files_s, &st.replica.model)?;
+                    let mut c2 = clone_by_reopen(&files_s, &st.replica.model, st.replica.cache)?;
                     let r2 = apply_proof(c2.core(), &c.proof);
                     let same = matches!(r2, Ok(Ok(true))) && obs_of(&mut c2) == obs_t && crate::world::snapshot(&c2.world) == files_t;
                     if same {
@@ -352,7 +352,7 @@ fn battery(ctx: &mut Ctx, st: &mut St, req: &Request, p: &Proof, r: &mut Rng, pr
                     } else if f != files_a0 {
                         // store bytes changed although nothing is observable now: the property speaks of
                         // observations, so this decides only if it becomes observable after a reopen
-                        let mut ro = clone_by_reopen(&f, &st.replica.model)?;
+                        let mut ro = clone_by_reopen(&f, &st.replica.model, st.replica.cache)?;
                         if obs_of(&mut ro) != obs_a0 {
                             ctx.violate(
                                 format!("refused-but-changed:{}:observation-after-reopen", c.kind),
@@ -368,7 +368,7 @@ fn battery(ctx: &mut Ctx, st: &mut St, req: &Request, p: &Proof, r: &mut Rng, pr
                 }
             }
         } else {
-            let mut c2 = clone_by_reopen(&files_s, &st.replica.model)?;
+            let mut c2 = clone_by_reopen(&files_s, &st.replica.model, st.replica.cache)?;
             let o0 = obs_of(&mut c2);
             let res = apply_proof(c2.core(), &c.proof);
             match &res {
@@ -399,7 +399,7 @@ fn battery(ctx: &mut Ctx, st: &mut St, req: &Request, p: &Proof, r: &mut Rng, pr
                             json!({"kind":"session","script": st.script, "alteration": c.name, "proof_no": proof_no}),
                         );
                     } else if f != files_s {
-                        let mut ro = clone_by_reopen(&f, &st.replica.model)?;
+                        let mut ro = clone_by_reopen(&f, &st.replica.model, st.replica.cache)?;
                         if obs_of(&mut ro) != o0 {
                             ctx.violate(
                                 format!("refused-but-changed:{}:observation-after-reopen", c.kind),
@@ -428,8 +428,8 @@ fn battery(ctx: &mut Ctx, st: &mut St, req: &Request, p: &Proof, r: &mut Rng, pr
     Ok(())
 }
 
-fn session(ctx: &mut Ctx, r: &mut Rng, small: bool) -> (Vec<Value>, Result<(), Fail>) {
-    let mut st = match St::new(r.next_u64()) {
+fn session(ctx: &mut Ctx, r: &mut Rng, small: bool, cache: CacheMode) -> (Vec<Value>, Result<(), Fail>) {
+    let mut st = match St::new(r.next_u64(), cache) {
         Ok(s) => s,
         Err(f) => return (vec![], Err(f)),
     };
@@ -503,8 +503,12 @@ fn session(ctx: &mut Ctx, r: &mut Rng, small: bool) -> (Vec<Value>, Result<(), F
 fn run_case(ctx: &mut Ctx, id: u64) {
     let mut r = ctx.case_rng(id);
     let small = id < 8 || r.chance(1, 2);
-    let (script, res) = session(ctx, &mut r, small);
+    // refusal must leave no trace in the replica's node cache either: a third of the sessions
+    // each run with the replica's cache off, default and tiny
+    let cache = [CacheMode::None, CacheMode::Default, CacheMode::Tiny][(id % 3) as usize];
+    let (script, res) = session(ctx, &mut r, small, cache);
     ctx.count("sessions");
+    ctx.count(&format!("session_cache:{cache:?}"));
     if let Err(f) = res {
         if f.sig.starts_with("scenario:") || f.sig.starts_with("writer:") || f.sig.starts_with("shadow:") || f.sig.starts_with("missing_nodes") || f.sig.starts_with("replica-") {
             // the honest scenario itself broke (C03's business): unusable here, never a C04 verdict
